@@ -110,3 +110,20 @@ def run_pool(worker, parts, env=None, envs=None, nproc=16, timeout=3600):
         return [json.loads(ln) for ln in lines]
     with cf.ThreadPoolExecutor(max_workers=nproc) as ex:
         return list(ex.map(one, range(len(parts))))
+
+
+def repo_fingerprint():
+    """sha1 over (path, size, mtime) of the library sources under VERIF_REPO: C10/C11 compare observations made at
+    different moments of one run (fresh-interpreter references vs histories), so the library must not change meanwhile."""
+    import hashlib
+    h = hashlib.sha1()
+    root = os.path.join(core.REPO, "xrspatial")
+    for d, _dirs, files in sorted(os.walk(root)):
+        if "tests" in d.split(os.sep) or "__pycache__" in d:
+            continue
+        for f in sorted(files):
+            if f.endswith(".py"):
+                p = os.path.join(d, f)
+                st = os.stat(p)
+                h.update(("%s|%d|%d\n" % (p, st.st_size, st.st_mtime_ns)).encode())
+    return h.hexdigest()[:16]
